@@ -11,6 +11,7 @@ WHY = {
     "F35": "collect and recommend use the lexical parent/name of DIRECTORY consistently (recommend `.` finds the `_db.json` that collect `.` writes); making both absolute changes recommend's `relative=` title field and the paths printed — not a one-line patch.",
     "F17-C01": "`spec.md`'s patterns are searched over the whole flat text, string constants included; a repair needs either escaping `_pos=`/`=` inside dumped values in `flatten_ast.py` (changes the documented flat format that users write their own features against) or anchoring all 170 feature patterns — not small.",
     "F31": "the derived-label SQL joins propagate the path of the *hint-added* occurrence, which is empty; giving added labels a path means inventing an AST position for an arbitrary line range — a design change, not a patch.",
+    "F49": "parsing the raw text instead of the stored one (or not trimming the blank ends) would change the stored source of VALID programs too (a program starting with a form feed, ending with blank lines or separators) and with it the 'verbatim, blank ends trimmed' statements of C11/C12 and the numbering of hints (C02/C12): not a small, safe change. The reported program is what remains once the blank ends are dropped; only the words of C14 ('content that is not valid Python is tagged meta/ast/<ErrorName>') are contradicted.",
     "F32": "same root as F17: `whole_span`'s pattern is not anchored to line starts of the flat dump and matches `_pos=` inside a dumped string value.",
 }
 
